@@ -12,7 +12,7 @@ From Coq Require Import List Bool Ascii String.
 From UV.Base Require Import Res.
 From UV.Py Require Import PyStr.
 From UV.Schemes Require Import Common Generic LegacyOpenssl Gentoo Debian.
-From UV.Schemes Require Import Rpm Gem Arch Openssl RoundTrips.
+From UV.Schemes Require Import Rpm Gem Arch Openssl RoundTrips Semver Pypi Maven Nuget Conan RoundTrips2 SemverRoundTrip NugetRoundTrip.
 Import ListNotations.
 
 Theorem C11_generic :
@@ -71,6 +71,33 @@ Theorem C11_rpm_and_openssl_validity_matches_constructor : forall s,
   (rpm_valid (normalize s) = Ok true <-> exists v, rpm_ctor s = Ok v) /\ (ossl_valid (normalize s) = Ok true <-> exists v, ossl_ctor s = Ok v).
 Proof. intros s. split; [apply rpm_valid_iff_ctor|apply ossl_valid_iff_ctor]. Qed.
 
+Theorem C11_remaining_classes_validity_matches_constructor : forall s,
+  (semver_valid (normalize s) = true <-> exists v, semver_ctor s = Ok v) /\
+  (golang_valid (normalize s) = true <-> exists v, golang_ctor s = Ok v) /\
+  (pypi_valid (normalize s) = true <-> exists v, pypi_ctor s = Ok v) /\
+  (nuget_valid (normalize s) = Ok true <-> exists v, nuget_ctor s = Ok v) /\
+  (maven_valid (normalize s) = true /\ exists v, maven_ctor s = Ok v) /\
+  (conan_valid (normalize s) = true /\ exists v, conan_ctor s = Ok v).
+Proof.
+  intros s. split; [apply semver_valid_iff_ctor|]. split; [apply golang_valid_iff_ctor|]. split; [apply pypi_valid_iff_ctor|].
+  split; [apply nuget_valid_iff_ctor|]. apply maven_conan_accept_everything.
+Qed.
+
+(* semver family: the printed form of a constructed version constructs the same version again *)
+Theorem C11_semver_family_roundtrip : forall s v,
+  (semver_ctor s = Ok v -> semver_ctor (semver_str v) = Ok v) /\ (golang_ctor s = Ok v -> golang_ctor (semver_str v) = Ok v).
+Proof. intros s v. split; [apply semver_ctor_roundtrip|apply golang_ctor_roundtrip]. Qed.
+Example C11_semver_roundtrip_inhabited :
+  exists v, semver_ctor (list_ascii_of_string " v1.2-rc.1+b_7") = Ok v /\ semver_str v = list_ascii_of_string "1.2.0-rc.1+b-7".
+Proof. eexists. split; vm_compute; reflexivity. Qed.
+
+(* nuget: the printed form of a constructed version constructs the same version again *)
+Theorem C11_nuget_roundtrip : forall s v, nuget_ctor s = Ok v -> nuget_ctor (nuget_str v) = Ok v.
+Proof. exact nuget_ctor_roundtrip. Qed.
+Example C11_nuget_roundtrip_inhabited :
+  exists v, nuget_ctor (list_ascii_of_string " v1.02.3.4-RC.1+Build") = Ok v /\ nuget_str v = list_ascii_of_string "1.2.3.4-rc.1+Build".
+Proof. eexists. split; vm_compute; reflexivity. Qed.
+
 Print Assumptions C11_generic.
 Print Assumptions C11_gentoo.
 Print Assumptions C11_alpine.
@@ -79,3 +106,6 @@ Print Assumptions C11_deb_validity_matches_constructor.
 Print Assumptions C11_gem.
 Print Assumptions C11_alpm.
 Print Assumptions C11_rpm_and_openssl_validity_matches_constructor.
+Print Assumptions C11_remaining_classes_validity_matches_constructor.
+Print Assumptions C11_semver_family_roundtrip.
+Print Assumptions C11_nuget_roundtrip.
